@@ -11,7 +11,17 @@ import Hgxv.Model.C15
   `traj <us> <ws>`                                                 -> `ok`: stores a recorded trajectory of (u, w) states (`|`-separated)
   `ctrl <tol|none> <every> <n>`                                    -> `rej` or `training_iter|tolerance_reached|index of the final state`:
                                                                       the model's loop `loopFrom` (stopping rule, `old`, `break`) run with
-                                                                      the loop body replaced by "successor in the stored trajectory" -/
+                                                                      the loop body replaced by "successor in the stored trajectory"
+  sessions on ONE model object (`Obj`, `fitObj`): the object lives in the driver's state
+  `onew <ratss u|none> <ratss w|none> <D|-1>`                      -> `ok`: `HyMMSBM(u=, w=, max_hye_size=)`
+  `ofit <ratss u0> <ratss w0> <ratss ru> <ratss rw> <sqrtC> <n> <tol|none> <every>`
+                                                                   -> `ret|..` / `raise|..` + `D|u|w|trained|training_iter|tolerance_reached`: `obj.fit`
+                                                                      on the current `data` (`u0`, `w0` = what the generator would draw)
+  `oset <ratss u|none> <ratss w|none>`                             -> `ok`: the caller wrote the parameter arrays / attributes
+  `opois` / `oesum`                                                -> Poisson parameters / hyperedge sums of the current `data` under the
+                                                                      object's CURRENT arrays, `uninit` when one is `None`
+  `osync`                                                          -> `ok` / `uninit`: the stateless commands above now read the object's arrays
+  `ostate`                                                         -> `D|u|w|trained|training_iter|tolerance_reached` -/
 open Wire C15
 
 structure St where
@@ -22,6 +32,7 @@ structure St where
   edges : List (List Nat) := []
   A : List Rat := []
   tbl : List Params := []
+  obj : Obj := { u := none, w := none, D := none }
 
 def St.data (s : St) : Data := dataOf s.N s.K s.edges s.A
 
@@ -47,7 +58,41 @@ def idxIn : List Params → Params → Nat
   | [], _ => 0
   | a :: rest, p => if a.u == p.u && a.w == p.w then 0 else idxIn rest p + 1
 
+def optMat? (s : String) : Option (Option (List (List Rat))) :=
+  if s = "none" then some none else (ratss? s).map some
+
+def showOptRows : Option (List (List Rat)) → String
+  | some x => showRatss x
+  | none => "none"
+
+def showObj (o : Obj) : String :=
+  (match o.D with | some D => toString D | none => "-1") ++ "|" ++ showOptRows o.u ++ "|" ++ showOptRows o.w ++ "|"
+    ++ showBool o.trained ++ "|" ++ (match o.it with | some i => toString i | none => "none") ++ "|" ++ showBool o.reached
+
 def step (s : St) : List String → St × String
+  | ["onew", u, w, dsup] => match optMat? u, optMat? w, int? dsup with
+    | some u, some w, some dsup => ({ s with obj := newObj u w (if dsup < 0 then none else some dsup.toNat) }, "ok")
+    | _, _, _ => (s, "bad-op")
+  | ["oset", u, w] => match optMat? u, optMat? w with
+    | some u, some w => ({ s with obj := { s.obj with u := u, w := w } }, "ok")
+    | _, _ => (s, "bad-op")
+  | ["ofit", u0, w0, ru, rw, sq, n, tol, every] =>
+    match ratss? u0, ratss? w0, ratss? ru, ratss? rw, rat? sq, nat? n, stop? tol every with
+    | some u0, some w0, some ru, some rw, some sq, some n, some stop =>
+      let d := dataOf (s.obj.u.getD u0).length (s.obj.w.getD w0).length s.edges s.A
+      let r := fitObj s.obj d u0 w0 (matOf ru) (matOf rw) sq stop n
+      ({ s with obj := r.1 }, (if r.2 then "ret|" else "raise|") ++ showObj r.1)
+    | _, _, _, _, _, _, _ => (s, "bad-op")
+  | ["opois"] => (s, match poisObj s.obj [], s.edges.mapM (poisObj s.obj) with
+    | some _, some l => showRats l
+    | _, _ => "uninit")
+  | ["oesum"] => (s, match edgeSumObj s.obj [], s.edges.mapM (edgeSumObj s.obj) with
+    | some _, some l => showRatss l
+    | _, _ => "uninit")
+  | ["osync"] => match s.obj.u, s.obj.w with
+    | some u, some w => ({ s with u := u, w := w, N := u.length, K := w.length }, "ok")
+    | _, _ => (s, "uninit")
+  | ["ostate"] => (s, showObj s.obj)
   | ["setu", u] => match ratss? u with
     | some u => ({ s with u := u, N := u.length }, "ok")
     | none => (s, "bad-op")
